@@ -660,7 +660,7 @@ protected:
             }
             else
             {
-                start = m_writer.write( chars, start, length);
+                start = m_writer.writeLiteral(chars, start, length);
             }
         }
 
